@@ -107,10 +107,6 @@ class Search:
         R, rb = self.R, self.rb
         if uses_tree(cfg):
             return "C05-N2:tree-restart-not-bitwise"
-
-        def rerun(fix_orig=None, fix_rest=None):
-            a, _ = R.load_bytes(a0_bytes)   # both from the same bytes, so that only the repair differs
-            return None
         # rebuild original and restored from scratch so the counterfactual starts from the same states
         a = build_sim(rb, cfg); advance(a, cfg["save_after"])
         self.pre_save_edit(a, cfg)
